@@ -7,10 +7,10 @@ toolchain go1.23.5
 require (
 	github.com/XiXi-2024/xixi-kv v0.0.0
 	github.com/anishathalye/porcupine v1.3.0
+	github.com/bwmarrin/snowflake v0.3.0
 )
 
 require (
-	github.com/bwmarrin/snowflake v0.3.0 // indirect
 	github.com/cespare/xxhash v1.1.0 // indirect
 	github.com/edsrzf/mmap-go v1.2.0 // indirect
 	github.com/gofrs/flock v0.12.1 // indirect
